@@ -47,7 +47,7 @@ Proof. split; reflexivity. Qed.
 
 (* the gathered result (blockwise _my_index over the blockwise index array, any chunking) is exactly what the
    numpy pipeline (one kd-tree batch over the valid targets, same valid-input compaction, index n <-> -1, fill,
-   scatter over valid_output_index) returns, plane by plane; requires at least one valid source pixel *)
+   scatter over valid_output_index; all fill when no source pixel is valid) returns, plane by plane *)
 Theorem C05_equals_numpy_model : forall (V : Type) (fill : V) voi q rows cols vii plane,
   let n := count_true vii in
   let H := sumZ rows in
@@ -55,7 +55,6 @@ Theorem C05_equals_numpy_model : forall (V : Type) (fill : V) voi q rows cols vi
   let pix := concat (tab pair 0 H 0 W) in
   let voil := map (fun p => voi (fst p) (snd p)) pix in
   Forall (fun x => 0 <= x) rows -> Forall (fun x => 0 <= x) cols ->
-  0 < n ->
   (forall i j, 0 <= i < H -> 0 <= j < W -> 0 <= q i j <= n) ->
   gather_chunked fill rows cols (fun rs cs => qnd_block n voi q (sstart rs) (slen rs) (sstart cs) (slen cs)) vii plane
   = unravel (Z.to_nat H) (Z.to_nat W) (np_sample fill vii voil (np_index_array q voil pix) plane).
